@@ -273,7 +273,7 @@ def judge(module, trace, name, parallel=None, extra_env=None, parts=None):
 # ---------------------------------------------------------------------------------------------
 # event-level conformance: recorded runs validated against the implementation-shaped model by TLC
 
-CONF_CMP = ("out", "h_start", "h_end", "ctl", "ctl_done", "conn_done", "h_drop")
+CONF_CMP = ("out", "h_start", "h_end", "h_read", "ctl", "ctl_done", "conn_done", "h_drop")
 
 
 def events_by_cmd(tp):
